@@ -318,7 +318,7 @@ def pmap(pool, fn, cases, chunk=64):
 # ------------------------------------------------------------------------------------------------
 def main():
     ck = Check("C15", "proof")
-    ck.lean_stage(["VelaVerif.Props.C15"])
+    ck.lean_stage(["VelaVerif.Props.C15", "VelaVerif.Props.C15Src"])
     load_repo()
     rng = ck.rng
     T = ck.thorough
